@@ -230,6 +230,13 @@ class UnitBuild:
         s, e = self.out(f"// @@FN carved {key}\n" + text)
         self.emitted.append(Emitted(key, "stub", "(carved block)", 0, s, e, contract=self.clauses(spec)))
 
+    def emit_assumed_in(self, key: str, impl: str):
+        spec = self.specs[key]
+        sig = self.name_return(spec.sig, spec.returns)
+        text = f"{impl} {{\n#[verifier::external_body]\npub {sig}\n{self.clauses(spec)}{{ unimplemented!() }}\n}}\n"
+        s, e = self.out(f"// @@FN assumed {key}\n" + text)
+        self.emitted.append(Emitted(key, "stub", "(dependency)", 0, s, e, contract=self.clauses(spec)))
+
     def emit_canary(self, sig: str, spec: FnSpec, key: str, out_impl: Optional[str]) -> Optional[str]:
         """`proof fn` with the same parameters and the same `requires` whose body asserts false: it must FAIL.
         If Verus proves it, the precondition (or the axiom base) is contradictory and every proof under it is vacuous."""
